@@ -161,7 +161,7 @@ def lines_of(prog):
     return [s[1] for s in prog if s[0] == 'L']
 
 
-def mutate(rng, prog):
+def mutate(rng, prog, zero_step=True):
     prog = copy.deepcopy(prog)
     lines = lines_of(prog)
     idx = [i for i, s in enumerate(prog) if s[0] != 'L']
@@ -213,7 +213,7 @@ def mutate(rng, prog):
     elif m == 11:
         prog.insert(i, ['END'])
     elif m == 12:
-        a, b, s = StructGen(rng).for_bounds()
+        a, b, s = StructGen(rng, allow_zero_step=zero_step).for_bounds()
         prog.insert(i, ['F', rng.choice(LOOPVARS), a, b, s])
     else:
         prog.insert(i, ['W', cond(rng)])
@@ -466,7 +466,7 @@ def gen_trap_prog(rng):
             return out
         if shape < 0.4:
             # a loop around a fault
-            a, b, s = StructGen(rng).for_bounds()
+            a, b, s = StructGen(rng, allow_zero_step=False).for_bounds()
             out.append(['F', 4, a, b, s])
             out.append(fault(rng, lines) if rng.random() < 0.7 else filler())
             out.append(filler())
@@ -523,7 +523,7 @@ def gen_trap(rng, long_rate=0.02):
         if r < 0.2:
             direct = gen_direct(rng, lines, h_lines, sub_lines)
         elif r < 0.3:
-            prog = mutate(rng, prog)
+            prog = mutate(rng, prog, zero_step=False)
         if accept(rng, prog, direct, long_rate):
             return {'k': 'flat', 'prog': prog, 'direct': direct}
     return {'k': 'flat', 'prog': [['L', 10], ['RES', 'S']], 'direct': None}
